@@ -163,9 +163,11 @@ MRules == {[vals |-> vs, mode |-> m, ci |-> ci, inv |-> inv] :
 MPairVals == {SubSeq(<<1, 2, 1>>, 1, n) : n \in MPairLens}
 MPairRules == {[vals |-> <<v>>, mode |-> m, ci |-> FALSE, inv |-> inv] : v \in MPairVals, m \in MModes, inv \in BOOLEAN}
 MData == Strs(MSyms, 0, MDataMax)
-MatchCases ==
-  {[rules |-> <<r>>, cond |-> "and", data |-> d] : r \in MRules, d \in MData}
-  \cup {[rules |-> <<r1, r2>>, cond |-> c, data |-> d] : r1 \in MPairRules, r2 \in MPairRules, c \in {"and", "or"}, d \in MData}
+\* every single rule x every data, and every pair of (single-valued) rules x and/or x every data
+MatchInit ==
+  \/ \E r \in MRules, d \in MData : mt = [rules |-> <<r>>, cond |-> "and", data |-> d]
+  \/ \E r1 \in MPairRules, r2 \in MPairRules, c \in {"and", "or"}, d \in MData :
+        mt = [rules |-> <<r1, r2>>, cond |-> c, data |-> d]
 
 (* --- transcription: Rule.Prepare, Rule.Match, Rule.match --- *)
 RulePrepared(r) == IF r.ci THEN [i \in DOMAIN r.vals |-> Lower(r.vals[i])] ELSE r.vals
@@ -339,7 +341,7 @@ Maintain ==
 Init ==
   /\ part \in Parts
   /\ IF part = "size" THEN sz \in SizeCasesBounded /\ sc = NoSc /\ mt = NoMt
-     ELSE IF part = "match" THEN mt \in MatchCases /\ sz = NoSz /\ sc = NoSc
+     ELSE IF part = "match" THEN MatchInit /\ sz = NoSz /\ sc = NoSc
      ELSE /\ sz = NoSz /\ mt = NoMt
           /\ \E T \in Ts \cup (IF WithDisabled THEN {-1} ELSE {}), U \in Us, mode \in Modes :
                \E T2 \in (IF mode = "rules" /\ NSrc >= 2 THEN T2s ELSE {0}) :
